@@ -1,4 +1,5 @@
 import StamModel.WebAnno
+import StamModel.Lemmas.WebAnnoDoc
 /-
   C17 — Web Annotation export is well-formed JSON faithful to the annotation: strings and values.
 
@@ -12,8 +13,20 @@ import StamModel.WebAnno
    * `value_json_roundtrip` — every data value (null, booleans, integers, floats as literals, strings, lists nested
      to any depth) written by `value_to_json` is one JSON value with the same content and JSON type;
    * `intoIri_clean` — identifiers turned into IRIs contain none of the characters `into_iri` promises to remove.
-  The assembly of the whole annotation object (members, commas, target structure) is **not** modelled: it is checked on
-  the implementation by the `webanno` family with serde_json as the reader (a test) — C17 is partial in that sense.
+  Proved here, about `StamModel/WebAnnoDoc.lean` (the assembly of the document, token by token, as the code does it
+  with its flags and emptiness tests):
+   * `export_is_the_specified_document` — for every configuration, every list of data items and every target the
+     exporter accepts, the tokens written are exactly those of `specDoc`: the JSON object with the members
+     `@context`, `id` (if any), `type`, the annotation-level properties in data order, the automatic `generated` /
+     `generator` unless given explicitly, `body` (iff some data item belongs there; default `type` and `id` unless
+     given) and `target` (first pass, and the second pass when an extra-target template meets nested text selectors);
+   * `export_wellformed` — that document is well-formed JSON (`WF`: the grammar of JSON over tokens): no comma is
+     missing, doubled or trailing, whatever the order and kind of the data items and the shape of the target;
+   * `not_accepted_is_empty` — a target the exporter does not accept gives the empty string.
+  What remains outside the model: that a token sequence is laid out as text with the literals of the first two
+  theorems (whitespace, the key strings), the IRI of each item and the expansion of the extra-target template — the
+  `webanno` family compares the model's tokens with the tokens of every real export, and reads every export with
+  serde_json. C17 stays partial in that sense.
 -/
 namespace Stam.WA.C17
 open Stam.WA
@@ -290,7 +303,103 @@ theorem intoIri_clean (s p : Str) (hp : p.any invalidInIri = false) :
     have hsl : invalidInIri '/' = false := by decide
     split <;> simp [List.any_append, hp', hclean, hsl]
 
+/-! ## the document -/
+
+open Stam.WD in
+/-- the flag-driven assembly writes exactly the specified JSON object -/
+theorem export_is_the_specified_document (showI : Int → Str) (c : Cfg) (annIri : Option Str) (data : List Datum) (sel : Sel)
+    (h : TopOk sel) : assemble showI c annIri data sel = specDoc showI c annIri data sel := by
+  have hdt : isDataTarget sel = false := by cases sel <;> simp_all [isDataTarget, TopOk]
+  have hinit : LoopInv (prefixToks c annIri) [] [] false false false false { annOut := prefixToks c annIri, bodyOut := [] } :=
+    ⟨by simp [sepBy], rfl, by simp [sepBy], rfl, rfl, rfl, rfl⟩
+  have hl := loop_inv showI c (prefixToks c annIri) data [] [] false false false false _ hinit
+  have hf := finish_spec c annIri sel h _ _ _ _ _ _ _ _ hl
+  unfold assemble
+  simp only [hdt, Bool.false_eq_true, ↓reduceIte]
+  rw [hf, prefix_eq]
+  unfold specDoc
+  have hne : [(kTarget, targetSpec c.hasTemplate sel)] ≠ [] := by simp
+  simp only [objT_append_ne _ _ hne, List.nil_append, Bool.false_or]
+  simp only [List.map_append, withCommas_append, List.append_assoc]
+  by_cases hb : bodyMembers showI c data = []
+  · simp [hb, sepBy, withCommas, memToks]
+  · have hb' : (bodyMembers showI c data).isEmpty = false := by simpa [List.isEmpty_iff] using hb
+    simp [hb', sepBy, withCommas, memToks]
+
+open Stam.WD in
+/-- the specified document is well-formed JSON -/
+theorem specDoc_wellformed (showI : Int → Str) (c : Cfg) (annIri : Option Str) (data : List Datum) (sel : Sel)
+    (h : TopOk sel) : WF (specDoc showI c annIri data sel) := by
+  unfold specDoc
+  refine WF.obj _ ?_
+  intro m hm
+  simp only [List.mem_append, List.mem_cons, List.not_mem_nil, or_false] at hm
+  rcases hm with (((((hm | hm) | hm) | hm) | hm) | hm) | hm
+  · rcases hm with rfl | hm
+    · exact ctxSpec_wf c
+    · exact idMem_wf c annIri [] m hm
+  · subst hm; exact WF.str _
+  · unfold mainMembers at hm
+    rcases List.mem_map.mp hm with ⟨d, _, rfl⟩
+    exact predMember_wf showI c _ _
+  · split at hm
+    · simp at hm; subst hm; exact WF.str _
+    · simp at hm
+  · split at hm
+    · simp only [List.mem_cons, List.not_mem_nil, or_false] at hm
+      subst hm
+      refine WF.obj _ ?_
+      intro k hk
+      simp only [List.mem_cons, List.not_mem_nil, or_false] at hk
+      rcases hk with rfl | rfl | rfl <;> exact WF.str _
+    · simp at hm
+  · split at hm
+    · simp at hm
+    · simp only [List.mem_cons, List.not_mem_nil, or_false] at hm
+      subst hm
+      refine WF.obj _ ?_
+      intro k hk
+      simp only [List.mem_append] at hk
+      rcases hk with (hk | hk) | hk
+      · split at hk
+        · simp at hk
+        · simp at hk; subst hk; exact WF.str _
+      · split at hk
+        · simp at hk
+        · exact idMem_wf c annIri _ k hk
+      · unfold bodyMembers at hk
+        rcases List.mem_map.mp hk with ⟨d, _, rfl⟩
+        exact predMember_wf showI c _ _
+  · subst hm; exact targetSpec_wf c.hasTemplate sel h
+
+open Stam.WD in
+/-- every export of an accepted annotation is well-formed JSON: no comma missing, doubled or trailing -/
+theorem export_wellformed (showI : Int → Str) (c : Cfg) (annIri : Option Str) (data : List Datum) (sel : Sel)
+    (h : TopOk sel) : WF (assemble showI c annIri data sel) := by
+  rw [export_is_the_specified_document showI c annIri data sel h]
+  exact specDoc_wellformed showI c annIri data sel h
+
+open Stam.WD in
+/-- an annotation on a key or on a data item is not exported -/
+theorem not_accepted_is_empty (showI : Int → Str) (c : Cfg) (annIri : Option Str) (data : List Datum) :
+    assemble showI c annIri data .skip = [] := by
+  simp [assemble, isDataTarget]
+
 /-! ## non-vacuity -/
+
+open Stam.WD in
+example : TopOk (.complex 0 [.text ['r'] 0 3 ['t'], .skip, .ranged [.text ['r'] 4 5 ['u']], .complex 2 []]) := trivial
+
+open Stam.WD in
+/-- `generated` first among the annotation-level properties, then a body item: the commas are where JSON wants them -/
+example : assemble (fun _ => ['7']) ⟨[], [], false, false, false, false⟩ none
+    [⟨true, kGenerated, [], .str ['x']⟩, ⟨true, kCreator, [], .int 7⟩, ⟨false, ['k'], ['s', '/', 'k'], .list (.cons .null .nil)⟩]
+    (.res ['r'])
+  = [.lb, .str kContext, .colon, .str vContextAnno, .comma, .str kType, .colon, .str vAnnotation, .comma,
+     .str kGenerated, .colon, .str ['x'], .comma, .str kCreator, .colon, .raw ['7'], .comma,
+     .str kBody, .colon, .lb, .str kType, .colon, .str vDataset, .comma, .str ['s', '/', 'k'], .colon, .lk, .raw vNull, .rk, .rb, .comma,
+     .str kTarget, .colon, .lb, .str kId, .colon, .str ['r'], .comma, .str kType, .colon, .str vText, .rb, .rb] := by
+  decide
 
 example : parseString (jsonStr ['a', '"', '\\', '\n', '\x01', 'é'] ++ [',', ' ']) = some (['a', '"', '\\', '\n', '\x01', 'é'], [',', ' ']) := by
   decide
